@@ -19,6 +19,67 @@ def under_lock(node, lock="self._send_lock") -> bool:
     return any(isinstance(w, ast.AsyncWith) and any(norm.raw(it.context_expr) == lock for it in w.items) for w in prog.enclosing(node, (ast.AsyncWith,)))
 
 
+def frame_atomic(chk, repo, wc, rule="C11.frame.atomic"):
+    """Rule written after seeding round 6 (seed C11-6): the bytes of one frame reach the transport in one synchronous step.
+    Frames of concurrent senders interleave at suspension points only.  A coroutine that hands a frame to the transport piecewise (a raw
+    `self.transport.write(...)` of its own, with an await between two pieces) is sound only if every other way to the transport waits for the
+    same lock - the unlocked fast path for small and control frames would otherwise put a Ping between the header and the payload of the
+    frame in progress, and the reader takes the Ping for payload bytes."""
+    raw_writers = {n: f for n, f in wc.methods.items() if any(norm.raw(c.func) == "self.transport.write" for c in prog.calls_in(f.node))}
+    if not raw_writers:
+        chk.analysis_error(f"{rule}: no method of {wc.name} writes to the transport")
+        return
+    # synchronous helpers that write (through another helper) hand over their bytes in the caller's step
+    sync_writers = {n for n, f in raw_writers.items() if not isinstance(f.node, ast.AsyncFunctionDef)}
+    grew = True
+    while grew:
+        grew = False
+        for n, f in wc.methods.items():
+            if n not in sync_writers and not isinstance(f.node, ast.AsyncFunctionDef) and any(isinstance(c.func, ast.Attribute) and norm.raw(c.func.value) == "self" and c.func.attr in sync_writers for c in prog.calls_in(f.node)):
+                sync_writers.add(n)
+                grew = True
+    def writes(n):
+        return n.in_finally_copy is None and isinstance(getattr(n, "ast", None), ast.AST) and n.kind in ("stmt", "test", "for", "with-enter") and any(
+            norm.raw(c.func) == "self.transport.write" or (isinstance(c.func, ast.Attribute) and norm.raw(c.func.value) == "self" and c.func.attr in sync_writers) for c in K.node_calls(n))
+    split = []
+    for name, f in wc.methods.items():
+        if not isinstance(f.node, ast.AsyncFunctionDef):
+            continue
+        g = cfg_of(f.node)
+        ws = [n for n in g.nodes if writes(n)]
+        sus = [n for n in g.nodes if n.in_finally_copy is None and K.node_suspends(n, repo)]
+        # a piece of a frame: a raw transport.write in the coroutine itself (a helper call writes a whole frame, unless it is told not to)
+        raw = [n for n in ws if any(norm.raw(c.func) == "self.transport.write" for c in K.node_calls(n))]
+        done = False
+        for a in ws:
+            for s_ in sus:
+                if s_ is a or done:
+                    continue
+                after = [b for b in ws if (a in raw or b in raw)]
+                if after and g.find_path([a], lambda n: n is s_, lambda n: False, EXPLICIT) is not None and g.find_path([s_], lambda n: n in after, lambda n: False, EXPLICIT) is not None:
+                    split.append((f, a, s_))
+                    done = True
+    n_sites = 0
+    unlocked = []
+    for name, f in wc.methods.items():
+        if not isinstance(f.node, ast.AsyncFunctionDef):
+            continue
+        for c in prog.calls_in(f.node):
+            if norm.raw(c.func) == "self.transport.write" or (isinstance(c.func, ast.Attribute) and norm.raw(c.func.value) == "self" and c.func.attr in sync_writers):
+                n_sites += 1
+                if not under_lock(c):
+                    unlocked.append((f, c))
+    if not split:
+        chk.ok(rule, next(iter(raw_writers.values())), f"only synchronous code writes frame bytes piecewise ({', '.join(sorted(raw_writers))}): no suspension point lies between two writes of one frame ({n_sites} call sites in coroutines)")
+    elif not unlocked:
+        chk.ok(rule, split[0][1].ast, f"{split[0][0].name}() suspends between two writes of a frame, and all {n_sites} ways to the transport hold the send lock")
+    else:
+        f, a, s_ = split[0]
+        chk.violation(rule, s_.ast, K.short(s_.ast), "one self.transport.write() per frame (or: every writer under self._send_lock)",
+                      f"{f.name}() suspends (`{K.short(s_.ast, 50)}`) between two writes of the same frame (`{K.short(a.ast, 50)}` ...), while {unlocked[0][0].name}() writes `{K.short(unlocked[0][1], 50)}` without the send lock: a Ping, Pong or short message sent by another task during that wait lands between the header and the payload of the frame in progress - the reader takes it for payload, the stream is desynchronised (reserved bits / unexpected opcode) and the messages are lost")
+    chk.expect_count(rule, n_sites, 3, "ways from the writer's coroutines to the transport")
+
+
 def run(chk):
     repo = chk.repo
     folder = Folder(repo)
@@ -34,7 +95,9 @@ def run(chk):
     chk.explanation += " Also decided: a per-message deflate context is created only without context takeover; the reader's resumable-state, opcode-reset and masking-key rules (shared with C12) are evaluated here as C11.rx.*. After the defect hunt: the Close frame is written under the send lock after _closing was set; per-message windows are clamped to the negotiated one; oversized control frames are refused."
     chk.explanation += " Round 4 / second hunt: the task that takes the send lock starts eagerly; frame lengths are byte counts (memoryview re-shaped); no caller-owned buffer reaches the transport by reference."
     wc = repo.cls(WM, W)
-    sf = repo.func(WM, f"{W}.send_frame")
+    sf0 = repo.func(WM, f"{W}.send_frame")
+    # (round 6) the way send_frame() spawns and shields its task may live in a helper (`await self._run_shielded(coro)`): read through it
+    sf = K.with_spawn_helpers(wc, "send_frame")
     wf = repo.func(WM, f"{W}._write_websocket_frame")
     gc = repo.func(WM, f"{W}._get_compressor")
 
@@ -126,6 +189,7 @@ def run(chk):
     sites = [c for f in als for c in prog.call_sites(repo, f, [WM]) if c.fn is None or c.fn.name not in susp]
     if len(sites) < 1:
         chk.violation("C11.shield", al, f"{al.name}(...)", "0 call sites", "the compress-and-send coroutine has no call site")
+    sites = [K.same_node(sf, c) if c.fn is sf0 and sf is not sf0 else c for c in sites]
     for call in sites:
         if isinstance(call.parent, ast.Await):
             chk.violation("C11.shield", call, K.short(call), "Task + asyncio.shield", "compress-and-send is awaited directly: cancelling the sender between compression and write corrupts the shared context")
@@ -345,6 +409,7 @@ def run(chk):
     chk.expect_count("C11.lock.owner", nret, 2, "return statements of _get_compressor")
     # ---- C11.bytelen: frame lengths are byte counts; len() of a memoryview counts items ---------------------------------------------------
     bytelen(chk, repo, sf, "message", "C11.bytelen")
+    frame_atomic(chk, repo, wc)
     # ---- C11.copy: what reaches the transport is not a buffer the caller can still change ---------------------------------------------
     wf = repo.func(WM, f"{W}._write_websocket_frame")
     params = {a.arg for a in wf.node.args.args[1:]}
